@@ -111,3 +111,33 @@ Print Assumptions C39_data_frame_too_long_rejected.
 Example C39_control_length_would_wrap :
   lenword 0 (2^24) / 2^24 = 1 /\ lenword 0 (2^24) mod 2^24 = 0 /\ lenword 0 (u32 (2097152 * 8 + 4)) / 2^24 = 1.
 Proof. exact control_length_wraps. Qed.
+
+(* boundaries (full, after the /repo fix 604820b; refuted before): for EVERY byte stream w (bytes in 0..255) and
+   EVERY inflate oracle cs, every frame Framer.ReadFrame returns while reading w from the start -- up to the
+   first error, after which BFE closes the session -- has consumed exactly 8 + its declared length bytes;
+   bounds_ok is the predicate the harness evaluates on the implementation's own (result, offset) trace. *)
+Theorem C39_boundaries : forall w cs fuel,
+  wf_bytes w = true -> bounds_ok w 0 (read_stream fuel (init_state w cs)) = true.
+Proof.
+  intros w cs fuel Hw. apply (read_stream_bounds w Hw fuel (init_state w cs)).
+  split; [apply Z.le_refl | reflexivity].
+Qed.
+Print Assumptions C39_boundaries.
+(* single frame form: a returned frame (tag >= 0) moved the reader by exactly 8 + length *)
+Theorem C39_frame_boundary : forall w st v st',
+  sfx w st -> wf_bytes w = true -> read_frame st = (v, st') -> is_frame v = true ->
+  sfx w st' /\ exists l, hdr_len w (off st) = Some l /\ off st' = off st + 8 + l.
+Proof. exact read_frame_boundary. Qed.
+Print Assumptions C39_frame_boundary.
+
+(* Central theorem on the sub-language of raw inputs (operation 2: any header block bytes within the
+   tabulated ToLower; operation 4: any wire and any oracle): the executable property holds on the model's
+   own observation; kf_C39 is constantly 0 since all findings are repaired.  Operations 1, 3, 5, 6, 7
+   (write-then-read round trips) are covered by C39_block_roundtrip, the *_roundtrip theorems and the
+   length-field theorems but not by this statement. *)
+Theorem C39_central_partial : forall i, wf_C39 i = true -> kf_C39 i = 0 -> prop_C39 i (run_C39 i) = true.
+Proof. exact central_partial. Qed.
+Print Assumptions C39_central_partial.
+Example C39_central_wf_example :
+  wf_C39 (VL [VZ 4; VB w_bound; VL []]) = true /\ wf_C39 (VL [VZ 2; VZ 1; VB w_alloc]) = true.
+Proof. exact wf_example. Qed.
